@@ -61,12 +61,13 @@ write("finding_stale_ignored", ["Inv_C23"], **dict(C23, Strict='"all"', MaxSteps
                                                  Acts=acts(["Write", "FileToDir", "DirToFile", "Snapshot", "CheckOut"])))
 
 # ---- C24: pristine working copies: only jj actions, every tree, both exec policies
-C24 = dict(Acts=acts(["CheckOut", "Snapshot", "SetSparse"]), TreeIds="{1, 2, 3, 4, 5, 6, 7, 8, 9, 10}",
+C24 = dict(Acts=acts(["CheckOut", "Snapshot", "SetSparse"]), TreeIds="{1, 3, 4, 6, 8, 9, 10, 14, 15, 16, 17, 18}",
            SparseIds="{1, 2, 4}", MaxSteps=4, RootIgnore="{}", DirIgnore="{}")
 write("c24", ALLINV, **C24)
 write("c24_xignore", ALLINV, **dict(C24, XP='"ignore"', MaxSteps=3))
 write("c24_thorough", ALLINV, **dict(C24, MaxSteps=5, SparseIds="{1, 2, 3, 4, 5, 6}"))
 write("neg_co_keep_dirs", ["Inv_C24"], **dict(C24, Bug='"co-keep-dirs"'))
+write("neg_co_labels_file_only", ["Inv_C24"], **dict(C24, Bug='"co-labels-file-only"', TreeIds="{1, 14, 15, 16, 17}"))
 
 # ---- C25: foreign files, directories and symlinks in the way of check-outs
 C25 = dict(Acts=acts(["Write", "Symlink", "FileToDir", "DirToFile", "CheckOut"]), TreeIds="{1, 3, 4, 5, 6}",
@@ -101,7 +102,7 @@ write("finding_stale_state", ["Inv_C23"], **dict(C27, Strict='"all"', MaxSteps=5
 
 # ---- generators (simulation; behaviours of 10 steps with a wide alphabet)
 GEN = dict(MaxSteps=10, MaxEditRun=3, SymTargets='{"out", "f", "out/x"}', RootIgnore="{1, 2, 3, 4, 7}", DirIgnore="{3, 5, 6}",
-           TreeIds="{1, 2, 3, 4, 5, 6, 7, 8, 9, 10, 11, 12, 13}", SparseIds="{1, 2, 3, 4, 5, 6}", Emit="TRUE")
+           TreeIds="{1, 2, 3, 4, 5, 6, 7, 8, 9, 10, 11, 12, 13, 14, 15, 16, 17, 18}", SparseIds="{1, 2, 3, 4, 5, 6}", Emit="TRUE")
 GI = ["EmitInv"]
 write("gen_c23_ignored", GI, view=False, **dict(GEN, Acts=acts(["Write", "Chmod", "Delete", "Mkfifo", "FileToDir", "DirToFile", "RmTree", "Snapshot", "CheckOut"]),
                                                TreeIds="{9, 11, 12}", EditPaths="InsideIgnoredPaths", MaxSteps=8, MaxEditRun=3))
